@@ -65,9 +65,16 @@ Definition clearc (x : node) := mkNode (kind x) (data x) (kids x) (parents x) (c
 (* self.__hash = None; self.collected = False (after clearc) *)
 Definition uncache (x : node) := mkNode (kind x) (data x) (kids x) (parents x) None false None None.
 
-(* Python truthiness of __hash: None and b"" are falsy *)
+(* `self.__hash is not None`: None is the only "not computed" state *)
 Definition hashed (x : node) : bool :=
-  match cached x with Some (_ :: _) => true | _ => false end.
+  match cached x with Some _ => true | None => false end.
+(* What is kept of a freshly computed hash.  The code stores it as it is.  The
+   previous code tested the truthiness of __hash (`if not self.__hash`,
+   `if self.__hash and not force`), so that a falsy hash (b"") - although
+   stored and returned - was everywhere treated exactly like None: that
+   behaviour is the mutant [old_truthy = true], which keeps None instead. *)
+Definition store (old_truthy : bool) (h : bytes) : option bytes :=
+  if old_truthy then match h with [] => None | _ => Some h end else Some h.
 
 (* ---- the children dict *)
 Fixpoint kget (key : bytes) (ks : list (bytes * nat)) : option nat :=
@@ -154,6 +161,7 @@ Definition inval (n : nat) (s : heap) : res heap := invalidate (S (length s)) n 
 
 Section WithNH.
 Variable NH : bytes -> list entry -> bytes.
+Variable old_truthy : bool.
 
 (* reading child.hash for every item of the dict, building the entries *)
 Fixpoint read_kids (rd : nat -> heap -> res (heap * bytes)) (ks : list (bytes * nat)) (s : heap)
@@ -186,12 +194,12 @@ Fixpoint update_hash (fuel : nat) (force : bool) (n : nat) (s : heap) : res (hea
   | S f =>
       x <- get s n ;;
       match cached x, force with
-      | Some (b :: h), false => Ok (s, b :: h)
+      | Some h, false => Ok (s, h)
       | _, _ =>
           s1 <- (if force then inval n s else Ok s) ;;
           s2 <- fold_res (fun k t => r <- update_hash f force k t ;; Ok (fst r)) (map snd (kids x)) s1 ;;
           r <- compute (update_hash f false) n s2 ;;
-          Ok (upd n (set_cached (Some (snd r))) (fst r), snd r)
+          Ok (upd n (set_cached (store old_truthy (snd r))) (fst r), snd r)
       end
   end.
 Definition read_hash (n : nat) (s : heap) := update_hash (S (length s)) false n s.
@@ -434,6 +442,7 @@ Definition new_node (k : nkind) (d : bytes) : node := mkNode k d [] [] None fals
 Section Step.
 Variable NH : bytes -> list entry -> bytes.
 Variable by_id : bool.
+Variable old_truthy : bool.
 
 Definition of_res {A} (s : heap) (r : res (heap * A)) (f : A -> out) : heap * out :=
   match r with Ok (s', a) => (s', f a) | Err e => (s, OutErr e) end.
@@ -448,11 +457,11 @@ Definition step (s : heap) (o : op) : heap * out :=
   | OUpdate p l => of_mut (update_many by_id s p l)
   | OGet p key => match getitem_ s p key with Ok c => (s, OutHandle c) | Err e => (s, OutErr e) end
   | OContains p key => match contains_ s p key with Ok b => (s, OutBool b) | Err e => (s, OutErr e) end
-  | OHash n => of_res s (read_hash NH n s) OutHash
-  | OForce n => of_res s (force_hash NH n s) OutHash
-  | OEntries n => of_res s (entries NH n s) OutEntries
-  | OToModel n => of_res s (to_model NH n s) OutEntries
-  | OCollect n => of_res s (collect NH (S (length s)) n s) OutNodes
+  | OHash n => of_res s (read_hash NH old_truthy n s) OutHash
+  | OForce n => of_res s (force_hash NH old_truthy n s) OutHash
+  | OEntries n => of_res s (entries NH old_truthy n s) OutEntries
+  | OToModel n => of_res s (to_model NH old_truthy n s) OutEntries
+  | OCollect n => of_res s (collect NH old_truthy (S (length s)) n s) OutNodes
   | OReset n => match reset_collect (S (length s)) n s with Ok s' => (s', OutUnit) | Err e => (s, OutErr e) end
   end.
 
@@ -502,10 +511,11 @@ Definition plain (key : bytes) : Prop := key <> [] /\ ~ In SLASH key.
 Section Guards.
 Variable NH : bytes -> list entry -> bytes.
 Variable by_id : bool.
+Variable old_truthy : bool.
 (* guard of one operation: the structure stays a DAG; a bulk update is given a
    dict (distinct keys) of plain names and existing nodes *)
 Definition guard (s : heap) (o : op) : Prop :=
-  acyclic (fst (step NH by_id s o)) /\
+  acyclic (fst (step NH by_id old_truthy s o)) /\
   match o with
   | OUpdate p l => NoDup (map fst l) /\ forall name c, In (name, c) l -> plain name /\ c < length s
   | _ => True
@@ -513,9 +523,9 @@ Definition guard (s : heap) (o : op) : Prop :=
 Fixpoint guarded (s : heap) (h : list op) : Prop :=
   match h with
   | [] => True
-  | o :: h' => guard s o /\ guarded (fst (step NH by_id s o)) h'
+  | o :: h' => guard s o /\ guarded (fst (step NH by_id old_truthy s o)) h'
   end.
-Definition final (s : heap) (h : list op) : heap := fst (run NH by_id s h).
+Definition final (s : heap) (h : list op) : heap := fst (run NH by_id old_truthy s h).
 End Guards.
 
 (* ---- C14: what the collections of a history have reported (ghost state).
@@ -542,10 +552,11 @@ Definition reports (rp : set_oracle) (s' : heap) (o : out) : list report :=
 Section Ghost.
 Variable NH : bytes -> list entry -> bytes.
 Variable by_id : bool.
+Variable old_truthy : bool.
 Variable rp : set_oracle.
 Fixpoint grun (s : heap) (rep : list report) (h : list op) : heap * list report :=
   match h with
   | [] => (s, rep)
-  | o :: h' => let '(s1, x) := step NH by_id s o in grun s1 (rep ++ reports rp s1 x) h'
+  | o :: h' => let '(s1, x) := step NH by_id old_truthy s o in grun s1 (rep ++ reports rp s1 x) h'
   end.
 End Ghost.
